@@ -333,6 +333,8 @@ class Particle(Structure):
                     iy = 0.
                 if((ix*ix + iy*iy) > 4.0):
                     raise ValueError("Passed (ix, iy) coordinates are not valid, squared sum exceeds 4.")
+                if not (a > 0.) or not ((h*h + k*k) < 1.0):
+                    raise ValueError("Pal coordinates (h,k,ix,iy) can only describe bound orbits: need a > 0 and h*h + k*k < 1.")
                 clibrebound.reb_particle_from_pal.restype = Particle
                 p = clibrebound.reb_particle_from_pal(c_double(simulation.G), primary, c_double(self.m), c_double(a), c_double(l), c_double(k), c_double(h), c_double(ix), c_double(iy))
             else:
@@ -404,6 +406,8 @@ class Particle(Structure):
                     raise ValueError("Unbound orbit can't have f beyond the range allowed by the asymptotes set by the hyperbola.")
                 if err.value == 6:
                     raise ValueError("Primary has no mass.")
+                if err.value == 15:
+                    raise ValueError("Semi-major axis cannot be zero.")
             self.x = p.x
             self.y = p.y
             self.z = p.z
